@@ -314,6 +314,9 @@ def run_models(pid, tier, work, jobs, rng):
         if pid == 'C01':
             apal = [ex.submit(apalache_ind, work, 'ConstInit', True, 'ReaderAbs'), ex.submit(apalache_ind, work, 'ConstInitNoDrain', False, 'ReaderAbs'),
                     ex.submit(apalache_ind, work, 'ConstInitStale', False, 'ReaderAbs')]
+        if pid == 'C05':
+            apal = [ex.submit(apalache_ind, work, 'ConstInit', True, 'SeqAbs'), ex.submit(apalache_ind, work, 'ConstInitSaturates', False, 'SeqAbs'),
+                    ex.submit(apalache_ind, work, 'ConstInitNoRestart', False, 'SeqAbs'), ex.submit(apalache_ind, work, 'ConstInitFirstFragment', False, 'SeqAbs')]
         for f in apal:
             info['models'].append(f.result())
         for expect, f in futs:
